@@ -82,22 +82,39 @@ def _kw(op, names=("transport_timeout_s", "read_timeout_s", "timeout_s")):
     return {k: op[k] for k in names if k in op}
 
 
+class CallbackAbort(BaseException):
+    """A callback failure that is not an Exception subclass (like KeyboardInterrupt / SystemExit / CancelledError)."""
+
+
 class _Callback(object):
-    def __init__(self, kind, rec):
+    """kinds: "rec" records; "raise" raises RuntimeError; "raise-base" raises a BaseException subclass;
+    "reenter" (sync API only) runs another filesync operation (stat) on the same device from inside the callback."""
+
+    def __init__(self, kind, rec, out=None):
         self.kind = kind
         self.rec = rec
+        self.out = out
+        self.busy = False
 
     def __call__(self, path, n, total):
         self.rec.append((path, n, total))
         if self.kind == "raise":
             raise RuntimeError("callback failure (injected)")
+        if self.kind == "raise-base":
+            raise CallbackAbort("callback failure (injected, BaseException)")
+        if self.kind == "reenter" and self.out is not None and self.out.api == "sync" and not self.busy:
+            self.busy = True
+            try:
+                self.out.extra.setdefault("reenter_results", []).append(tuple(self.out.device.stat("/reenter-probe")))
+            finally:
+                self.busy = False
 
 
 def make_callback(kind, out, idx):
     if not kind:
         return None
     rec = out.cb_records.setdefault(idx, [])
-    return _Callback(kind, rec)
+    return _Callback(kind, rec, out)
 
 
 def prepare_push_source(op, out):
@@ -347,7 +364,7 @@ def run(scn, async_=None, lock_factory=None, keep_tmp=False, before_op=None):
                     break
                 except env.HarnessError:
                     raise
-                except Exception as e:  # noqa
+                except (Exception, CallbackAbort) as e:  # noqa
                     _record(out, i, exc=e, t0=t0, n0=n0)
                 else:
                     _record(out, i, r, t0=t0, n0=n0)
@@ -366,7 +383,7 @@ def run(scn, async_=None, lock_factory=None, keep_tmp=False, before_op=None):
                         break
                     except env.HarnessError:
                         raise
-                    except Exception as e:  # noqa
+                    except (Exception, CallbackAbort) as e:  # noqa
                         _record(out, i, exc=e, t0=t0, n0=n0)
                     else:
                         _record(out, i, r, t0=t0, n0=n0)
